@@ -3,6 +3,7 @@ CONSTANTS Streams <- Medium
   ReadMax = 2048
   MaxReads = 0
   Fails <- FewFail
+  Swaps <- FewSwap
   Cuts <- NoCuts
   D = 0
 INIT Init
